@@ -15,35 +15,49 @@ THEOREMS = [_T + n for n in [
     "C14_ids_distinct", "C14_rejects_nonpositive", "C14_default_hop", "C14_bound_irrelevant",
     "C14_holds_iff", "C14_pinned_bound_loses_windows",
     # review R-C14
-    "C14_count", "C14_bound_ge", "C14_name_injective", "C14_full"]]
+    "C14_count", "C14_bound_ge", "C14_name_injective", "C14_full", "C14_complete_tail"]]
 LEVEL_TEXT = ("Lean theorems over a loop-level model of segment_clip (after fix C14-1: loop bound ceil(duration/hop)), for all "
               "rational clip bounds, durations, hops and both flags: the i-th segment is the lattice window start + i*hop "
               "truncated at the clip end; the result contains exactly the windows that fit (resp. start inside the clip); "
-              "complete windows last exactly `duration`; coverage when hop <= duration; strictly increasing starts hence "
-              "distinct identifier keys; rejection iff a parameter is non-positive; the executable statement `holds` is "
-              "satisfied by exactly the model's result.  The pinned bound floor(duration/hop) is refuted on concrete "
-              "witnesses.  The model is tied to the code by exact differential runs on an exhaustive dyadic grid.")
-LEVEL_NOTE = ("Trusted: Lean kernel, the Python harness, uuid.uuid5 (SHA-1 collision freedom: identifiers are modelled by the "
-              "key (parent, start, end) they are computed from).  Unmodelled: binary64 rounding of duration/hop, "
-              "start + i*hop and start + duration for non-dyadic values - probed in free mode (decimal hops) against the "
-              "exact model with a one-sliver allowance at the clip end.  Model tied to the code by generator-bounded "
-              "correspondence only (the loop bound makes the function untraceable symbolically).")
-TECHNIQUE = ("Lean 4 proof over a loop-level model (induction on the loop bound); exhaustive dyadic-grid correspondence with "
-             "exact comparison; recomputed uuid5 keys; float monitor in free mode")
+              "the whole result in closed form (the windows 0 .. count-1, count = ceil((e-s)/hop) resp. "
+              "floor((e-s-duration)/hop)+1); complete windows last exactly `duration`; coverage when hop <= duration (with "
+              "include_incomplete the whole clip, without it all but a tail shorter than one hop); strictly increasing "
+              "starts; the name the uuid is computed from, 'segment_clip:<parent>:<start>:<end>', is injective in (parent, "
+              "start, end) for an injective colon-free number formatting, hence pairwise distinct within a call; every "
+              "segment carries the parent's recording; rejection iff a parameter is non-positive; any loop bound >= "
+              "ceil(duration/hop) gives the same result; the executable statement `holds` is satisfied by exactly the "
+              "model's result.  The pinned bound floor(duration/hop) is refuted on concrete witnesses.  The model is tied "
+              "to the code for all inputs by symbolic traces of the real function (guards, default hop, both breaks, "
+              "clamp, lattice formula, name, recording, the quantity rounded for the loop bound) with the loop bound "
+              "answered by an oracle n = 0..3, and by exact differential runs on exhaustive dyadic grids.")
+LEVEL_NOTE = ("Trusted: Lean kernel, the Python harness and symbolic tracer, the semantics of `for i in range(n)` (the body "
+              "traced for n = 0..3 is the body run for every n) and of math.ceil, uuid.uuid5 (SHA-1 collision freedom), "
+              "Python's float formatting as the model's `fmt` (round-trip injectivity and absence of ':' are monitored on "
+              "every observed bound).  Unmodelled: binary64 rounding of duration/hop, start + i*hop and start + duration "
+              "for non-dyadic values - probed in free mode (decimal hops) against the exact model with a one-sliver "
+              "allowance at the clip end; NaN / inf.")
+TECHNIQUE = ("Lean 4 proof over a loop-level model (induction on the loop bound); symbolic-trace equality obligations "
+             "regenerated from the source with an oracle loop bound; exhaustive dyadic-grid correspondence with exact "
+             "comparison; recomputed uuid5 names; float monitor in free mode")
 RULE = ("exhaustive dyadic grid of clip start/end x duration x hop (hop <, =, > duration; clip length exact and non-exact "
-        "multiples of the hop) x both flags, plus random dyadic and decimal cases; non-trivial = the implementation "
+        "multiples of the hop) x both flags, plus random dyadic cases (floats, ints, numpy float64), clip ends 2^-10..2^-40 "
+        "off a lattice point or window end, hops of 2^-22, and decimal cases; non-trivial = the implementation "
         "yielded at least one segment; distinct = distinct (operation, input)")
-TRUSTED = ["uuid.uuid5 / SHA-1: distinct keys give distinct identifiers",
+TRUSTED = ["uuid.uuid5 / SHA-1: distinct names give distinct identifiers",
+           "Python float formatting inside an f-string is repr (the model's parameter `fmt`); monitored: round-trips, no ':'",
+           "for-loop semantics: the loop body traced symbolically for range(0..3) is the body executed for every range(n)",
            "pydantic Clip construction stores start_time/end_time/recording/uuid unchanged"]
 ASSUMPTIONS = ["binary64 arithmetic is exact on the dyadic grids used: e - s, i*hop, s + i*hop, start + duration are sums and "
-               "products of small dyadics; duration/hop is correctly rounded and, for numerators below 2^26, cannot round "
-               "across an integer, so floor/ceil of the float quotient equal floor/ceil of the exact one"]
+               "products of dyadics below 2^10 at resolution >= 2^-40; duration/hop is correctly rounded and cannot round "
+               "across an integer (grid: numerators below 2^26; fine cases: quotient < 64 and at least 2^-43 from an "
+               "integer unless equal to one), so ceil of the float quotient equals ceil of the exact one"]
 NOT_COMPARED = ["error messages (only the error class)",
                 "free mode: values within 2^-40 relative; one trailing window whose start (or, without include_incomplete, "
                 "whose end) is within 2^-40 of the clip end may be present on one side only (float sliver)",
                 "the numeric value of a segment uuid is compared with uuid5(namespace, 'segment_clip:<parent>:<start>:<end>') "
-                "as a tie of the identifier key; a different formula alone is not reported as a violation unless ids stop "
-                "being a deterministic injective function of (parent, start, end)"]
+                "as a tie of the identifier name (symbolically for all inputs and on every observed segment); a different "
+                "formula alone is not reported as a violation unless ids stop being a deterministic injective function of "
+                "(parent, start, end)"]
 
 PARENTS = ["7d2e9a4c-1111-4a6b-9c3d-000000000001", "7d2e9a4c-1111-4a6b-9c3d-000000000002"]
 _REC = None
